@@ -318,6 +318,10 @@ enum HeaderVal {
 
 #[derive(Clone, Debug, Serialize, Deserialize)]
 struct HeaderCase {
+    /// which API the server carries: 0 the ladder, 1 only unrestricted endpoints,
+    /// 2 an unrestricted endpoint on the probed path and a restricted one elsewhere
+    #[serde(default)]
+    api: u8,
     val: HeaderVal,
     /// spelling of the header name
     upper_name: bool,
@@ -337,6 +341,19 @@ fn ladder() -> Vec<MEndpoint> {
     out.push(ep("step_from_200", "GET", &MRange::From(p[6].clone())));
     out.push(ep("put_from_101", "PUT", &MRange::From(p[5].clone())));
     out
+}
+
+fn header_tables() -> Vec<Vec<MEndpoint>> {
+    let p = pool();
+    let mut other = ep("elsewhere_from_100", "GET", &MRange::From(p[4].clone()));
+    other.segs = vec![Seg::Lit("elsewhere".into())];
+    let mut deeper = ep("deeper_all", "GET", &MRange::All);
+    deeper.segs = vec![Seg::Lit("q".into()), Seg::Var("v1".into())];
+    vec![
+        ladder(),
+        vec![ep("plain_get", "GET", &MRange::All), ep("plain_put", "PUT", &MRange::All), deeper],
+        vec![ep("plain_get", "GET", &MRange::All), other],
+    ]
 }
 
 const MAX_VERSION: &str = "2.5.0";
@@ -379,7 +396,7 @@ fn header_case_strategy() -> impl Strategy<Value = HeaderCase> {
             .prop_filter("needs a non-ascii byte", |v| v.iter().any(|b| *b >= 0x80))
             .prop_map(HeaderVal::NonAscii),
     ];
-    (val, any::<bool>()).prop_map(|(val, upper_name)| HeaderCase { val, upper_name })
+    (prop_oneof![2 => Just(0u8), 1 => Just(1u8), 1 => Just(2u8)], val, any::<bool>()).prop_map(|(api, val, upper_name)| HeaderCase { api, val, upper_name })
 }
 
 struct Live {
@@ -387,8 +404,12 @@ struct Live {
     server: dropshot::HttpServer<DynCtx>,
 }
 
-fn check_header(live: &Live, rt: &tokio::runtime::Runtime, c: &HeaderCase, st: &mut Stats) -> Result<(), Failure> {
-    let table = ladder();
+fn check_header(lives: &[Live], rt: &tokio::runtime::Runtime, c: &HeaderCase, st: &mut Stats) -> Result<(), Failure> {
+    let tables = header_tables();
+    let which = c.api as usize % tables.len();
+    let table = tables[which].clone();
+    let live = &lives[which];
+    st.count(&format!("api:{}", which));
     let max = MVer::parse(MAX_VERSION);
     let name = if c.upper_name { "X-Verif-Version" } else { "x-verif-version" };
     let mut head = format!("GET /p HTTP/1.1\r\nhost: h\r\n").into_bytes();
@@ -417,13 +438,14 @@ fn check_header(live: &Live, rt: &tokio::runtime::Runtime, c: &HeaderCase, st: &
             }
             let segs = vec!["p".to_string()];
             let d = dispatch(&table, "GET", &segs, Some(v));
-            ensure!(d.len() == 1, "harness-ladder", "ladder does not partition at {}", v.text());
+            ensure!(d.len() == 1, "harness-ladder", "table {} does not serve GET /p exactly once at {}", which, v.text());
             let want = &d[0].0.op;
             let got = resp.json().map(|j| j["op"].clone());
             ensure!(
                 resp.status == 200 && got == Some(json!(want)),
                 "header-routing",
-                "header version {}: expected 200 from {}, got {} {:?}",
+                "api {}: header version {}: expected 200 from {}, got {} {:?}",
+                which,
                 v.text(),
                 want,
                 resp.status,
@@ -443,7 +465,8 @@ fn check_header(live: &Live, rt: &tokio::runtime::Runtime, c: &HeaderCase, st: &
             ensure!(
                 (400..500).contains(&resp.status),
                 format!("header-refusal:{}", class),
-                "{:?}: expected a 4xx, got {} {:?}",
+                "api [{}], GET /p with {:?}: expected a 4xx, got {} {:?}",
+                table.iter().map(|e| format!("{} {} [{}]", e.method, e.template(), e.range.text())).collect::<Vec<_>>().join("; "),
                 other,
                 resp.status,
                 resp.body_text()
@@ -462,7 +485,7 @@ fn check_header(live: &Live, rt: &tokio::runtime::Runtime, c: &HeaderCase, st: &
 }
 
 pub fn run(ctx: &mut Ctx) {
-    ctx.rule = "membership/conflict: complete enumeration of all 43 ranges over a 7-version ordered pool (with pre-releases) x 9 probes and all 1849 ordered pairs, plus random semver triples; non-trivial = probe on a range bound or with a pre-release, pair sharing a bound or containing a one-version range; header cases: non-trivial = pool/pre-release versions and every refusal class instance (distinct by value)".into();
+    ctx.rule = "membership/conflict: complete enumeration of all 43 ranges over a 7-version ordered pool (with pre-releases) x 9 probes and all 1849 ordered pairs, plus random semver triples; non-trivial = probe on a range bound or with a pre-release, pair sharing a bound or containing a one-version range; header cases against three APIs (a ladder of ranges partitioning the version line; only unrestricted endpoints; an unrestricted endpoint plus a restricted one elsewhere): non-trivial = pool/pre-release versions and every refusal class instance (distinct by value)".into();
     ctx.assume("build metadata is never generated (precedence ignores it and the macro rejects it)");
     ctx.assume("the least semver version 0.0.0-0 is not used as an Until bound (empty range)");
 
@@ -521,21 +544,26 @@ pub fn run(ctx: &mut Ctx) {
     ctx.phase("random_semver", n, strat, check_random);
 
     // live header policy
-    let live = {
-        let _g = ctx.rt.enter();
-        let api = build_api(&ladder()).expect("ladder must register");
-        let policy = dropshot::VersionPolicy::Dynamic(Box::new(dropshot::ClientSpecifiesVersionInHeader::new(
-            http::HeaderName::from_static("x-verif-version"),
-            MVer::parse(MAX_VERSION).semver(),
-        )));
-        let server = start_server(api, DynCtx::default(), Default::default(), Some(policy)).expect("server");
-        Live { addr: server.local_addr(), server }
-    };
+    let lives: Vec<Live> = header_tables()
+        .iter()
+        .map(|t| {
+            let _g = ctx.rt.enter();
+            let api = build_api(t).expect("header tables must register");
+            let policy = dropshot::VersionPolicy::Dynamic(Box::new(dropshot::ClientSpecifiesVersionInHeader::new(
+                http::HeaderName::from_static("x-verif-version"),
+                MVer::parse(MAX_VERSION).semver(),
+            )));
+            let server = start_server(api, DynCtx::default(), Default::default(), Some(policy)).expect("server");
+            Live { addr: server.local_addr(), server }
+        })
+        .collect();
     let n = ctx.tier.pick(15000, 200000);
     {
         let rt = tokio::runtime::Builder::new_current_thread().enable_all().build().unwrap();
-        ctx.phase("header_live", n, header_case_strategy(), |c, st| check_header(&live, &rt, c, st));
+        ctx.phase("header_live", n, header_case_strategy(), |c, st| check_header(&lives, &rt, c, st));
     }
     ctx.require_frac("header_live", "hdr:supported", "hdr:supported", 0.0);
-    let _ = ctx.rt.block_on(live.server.close());
+    for l in lives {
+        let _ = ctx.rt.block_on(l.server.close());
+    }
 }
